@@ -55,6 +55,8 @@ type echoCfg struct {
 	bigFrames         bool
 	padTokens         bool
 	hugeFrames        bool
+	pHoldIter         int  // percent of callers that read their row only a little later (other answers arrive meanwhile)
+	pWrongVersion     int  // percent of answers whose header carries another protocol version (same header layout) than the connection's
 	lateUndecodable   bool // late answers carry the compression flag although no compression was negotiated (the frame cannot be decoded)
 	pSplit            int  // percent of answers that arrive in two pieces with a gap of 1.5 x the driver's timeout inside the body
 	seed              int64
@@ -87,6 +89,8 @@ type echoResult struct {
 	recvStalls             []string
 	splits                 int64
 	hugeSent               int64
+	heldIters              int64
+	wrongVersion           int64
 	undecodable            int64
 	logLines               []string // what the driver logged (through ClusterConfig.Logger)
 	receiverSideRecord     bool     // the byte streams were recorded by the peer of a real socket, not by the transport itself
@@ -187,6 +191,7 @@ type echoNode struct {
 	dup           []string
 	splits        int64
 	hugeSent      int64
+	wrongVersion  int64
 	undecodable   int64
 }
 
@@ -232,6 +237,20 @@ func (en *echoNode) answer(sc *fakenode.ServerConn, req *fakenode.Req, token str
 		if err = sc.WriteReply(req, f); err == nil {
 			atomic.AddInt64(&en.lateDelivered, 1)
 			atomic.AddInt64(&en.undecodable, 1)
+		}
+		return
+	}
+	if en.cfg.pWrongVersion > 0 && int(h32(token, 17)%100) < en.cfg.pWrongVersion && !sc.Control() {
+		// a well-formed answer of another protocol version (a proxy, a node of another version): the caller gets a
+		// protocol error, the request has ended and its stream id is free again
+		other := map[int]int{1: 2, 2: 1, 3: 4, 4: 5, 5: 3}[sc.Version]
+		w := cqlref.BodyRows(other, &cqlref.RowsSpec{Meta: cqlref.Metadata{Global: true, ColCount: 1, Columns: []cqlref.Column{{Keyspace: "e", Table: "e", Name: "v", Type: &cqlref.Type{ID: cqlref.TText}}}}, Rows: [][][]byte{{[]byte(payload)}}})
+		f, _ := cqlref.BuildFrame(other, req.Header.Stream, cqlref.OpResult, nil, w, nil)
+		if err = sc.WriteReply(req, f); err == nil {
+			atomic.AddInt64(&en.wrongVersion, 1)
+			if late {
+				atomic.AddInt64(&en.lateDelivered, 1)
+			}
 		}
 		return
 	}
@@ -386,6 +405,8 @@ func classifyErr(err error) string {
 		return "conn-closed"
 	case strings.Contains(s, "EOF"), strings.Contains(s, "closed pipe"), strings.Contains(s, "unable to read frame body"), strings.Contains(s, "injected write failure"), strings.Contains(s, "i/o timeout"), strings.Contains(s, "deadline exceeded"):
 		return "conn-closed"
+	case strings.Contains(s, "unexpected protocol version in response"):
+		return "wrong-version-answer"
 	case strings.Contains(s, "no compressor available"):
 		// the (late) answer arrived while the caller was still waiting and could not be decoded: the request ended with it
 		return "undecodable-answer"
@@ -553,6 +574,11 @@ func runEcho(c *runner.Ctx, ec *echoCfg) *echoResult {
 		}
 		c.Guard("Query.Iter", func() {
 			it := sess.Query("ECHO " + token).WithContext(ctx).Iter()
+			if ec.pHoldIter > 0 && r.Intn(100) < ec.pHoldIter {
+				// the caller looks at its rows only after other answers have come in on the same connection
+				time.Sleep(time.Duration(200+r.Intn(3000)) * time.Microsecond)
+				atomic.AddInt64(&res.heldIters, 1)
+			}
 			it.Scan(&got)
 			err = it.Close()
 		})
@@ -648,6 +674,7 @@ func runEcho(c *runner.Ctx, ec *echoCfg) *echoResult {
 	res.lateDelivered = atomic.LoadInt64(&en.lateDelivered)
 	res.splits = atomic.LoadInt64(&en.splits)
 	res.hugeSent = atomic.LoadInt64(&en.hugeSent)
+	res.wrongVersion = atomic.LoadInt64(&en.wrongVersion)
 	res.undecodable = atomic.LoadInt64(&en.undecodable)
 	en.mu.Lock()
 	res.lateReused = en.lateReused
